@@ -45,7 +45,7 @@ KNOWN = {
     'C15': "with `run(..., till=T)` a root activity's return value is dropped silently and failures arrive wrapped in Concurrent",
     'C17': 'an exact handler `Concurrent[A, B]` accepts a failure whose children are all of type A',
 }
-ORD = {10: 'tenth', 11: 'eleventh', 12: 'twelfth', 13: 'thirteenth', 14: 'fourteenth'}
+ORD = {10: 'tenth', 11: 'eleventh', 12: 'twelfth', 13: 'thirteenth', 14: 'fourteenth', 15: 'fifteenth'}
 
 
 def prep(rnd):
